@@ -203,6 +203,9 @@ func (s *Sim) genClientOp() (Decision, bool) {
 		return Decision{}, false
 	}
 	c := pickOne(s, open)
+	if p.fault("stall_client") && c.stallCh == nil && c.nextID > 0 && s.chance(0.08) {
+		return Decision{K: "cli", A: c.Name, P: `{"op":"stall"}`}, true
+	}
 	// version handshake first
 	if c.nextID == 0 && c.Idx < len(p.Protos) && p.Protos[c.Idx] != "" {
 		return cliReq(c, "version", `{"protocol":`+jstr(p.Protos[c.Idx])+`}`), true
